@@ -418,6 +418,12 @@ func runC04(c *Ctx) {
 						if r1 == r2 {
 							same = true
 						}
+						// two reads of the same field of the same object (i.waiter), the field not being assigned in between
+						f1, b1 := FieldOf(r1)
+						f2, b2 := FieldOf(r2)
+						if f1 != nil && f1 == f2 && b1 != nil && sameRoots(b1, b2) && len(FieldStoresIn([]*ssa.Function{in.Parent()}, "", f1.Name())) == 0 {
+							same = true
+						}
 					}
 				}
 				c.Check(same && InstrDominates(w, in), "O4.4", bk+":lateness-of-the-token-just-drawn", in.Pos(), "IsSlowDown must be asked of the waiter that just returned the token, after Wait")
